@@ -175,6 +175,12 @@ func (x *rnd) sp() string { // optional insignificant space
 	}
 	return ""
 }
+func (x *rnd) sp1of() string {
+	if x.intn(6) == 1 {
+		return "\t"
+	}
+	return " "
+}
 func (x *rnd) sp1() string { // at least nothing / one / two spaces where WS is hidden
 	switch x.intn(8) {
 	case 1:
@@ -306,10 +312,12 @@ func (x *rnd) tyexpr(t gen.TypeExpr) string {
 
 func (x *rnd) coll(c int) string {
 	switch c {
+	// exactly one blank (or tabs) between the two words: "set  of T" with two spaces lexes as one TEXT_LINE
+	// (a reference to a type of that name), see notes/C02.md
 	case gen.CSet:
-		return x.casing("set") + x.sp1() + "of "
+		return x.casing("set") + x.sp1of() + "of "
 	case gen.CSeq:
-		return x.casing("sequence") + x.sp1() + "of "
+		return x.casing("sequence") + x.sp1of() + "of "
 	}
 	return ""
 }
@@ -481,7 +489,7 @@ func (w *writer) epBody(key string, annos []gen.Anno, doc []string, body []gen.S
 	}
 	ai := 0
 	for i := range body {
-		for ai < len(annos) && w.x.chance(1, 2) {
+		for ai < len(annos) && body[i].Kind != gen.KElse && w.x.chance(1, 2) { // never between an if and its else
 			w.anno(key+"@"+annos[ai].Name, annos[ai])
 			ai++
 		}
